@@ -7,9 +7,9 @@ package main
 import (
 	"encoding/json"
 	"fmt"
-	"os"
 	"go/types"
 	"net"
+	"os"
 	"reflect"
 	"sort"
 	"strings"
